@@ -15,6 +15,9 @@ pub mod xmlnode_stub {
     pub struct Entry { pub amount: super::xmlnode::Amount, pub credit_or_debit: CreditDebitIndicator, pub booking_date: DateHolder, pub value_date: Option<DateHolder> }
     pub struct CreditDebitIndicator { pub value: super::xmlnode::CreditOrDebit }
     pub struct References { pub account_servicer_reference: Option<String> }
+    /// stand-ins for xmlnode::Charges / ChargeRecord and the part of config::ConfigEntry that add_charges reads
+    pub struct Charges { pub records: Vec<ChargeRecord> }
+    pub struct ChargeRecord { pub amount: super::xmlnode::Amount, pub credit_or_debit: CreditDebitIndicator, pub is_charge_included: bool }
     /// stand-ins for xmlnode::Statement / Balance: the members find_balance reads
     pub struct Statement { pub balance: Vec<Balance> }
     pub struct Balance { pub balance_type: BalanceType, pub amount: super::xmlnode::Amount, pub credit_or_debit: CreditDebitIndicator }
@@ -37,3 +40,11 @@ pub fn opt_string_as_deref(o: &Option<String>) -> (r: Option<&str>) ensures r is
 #[verifier::external_body]
 pub fn single_line(text: &str) -> (r: String) { unimplemented!() }
 
+
+pub mod config { pub struct ConfigEntry { pub operator: Option<String> } }
+pub enum ImportError { InvalidConfig(&'static str), Unimplemented(&'static str), Other(String) }
+/// ASSUMED std: String == String compares the texts; String::clone copies the text
+#[verifier::external_body]
+pub fn string_ne(a: &String, b: &String) -> (r: bool) ensures r == (a@ != b@) { unimplemented!() }
+#[verifier::external_body]
+pub fn string_clone(a: &String) -> (r: String) ensures r@ == a@ { unimplemented!() }
